@@ -71,7 +71,7 @@ func Run(c *hx.Ctx) {
 			}
 		}
 	}
-	n := c.N(130, 500)
+	n := c.N(130, 1200)
 	if replay {
 		n = in.Block + 1
 	}
